@@ -146,6 +146,21 @@ def parse_stdout(text):
     return items, skip, finished
 
 
+STRACE_OK = [None]
+FALLBACKS = [0]
+
+
+def strace_usable():
+    """Can this process trace a child? (ptrace may be restricted.)"""
+    if STRACE_OK[0] is None:
+        try:
+            p = subprocess.run(["strace", "-f", "-e", "trace=write", "-o", "/dev/null", "true"], stdout=subprocess.PIPE, stderr=subprocess.PIPE, timeout=20)
+            STRACE_OK[0] = p.returncode == 0
+        except Exception:
+            STRACE_OK[0] = False
+    return STRACE_OK[0]
+
+
 def run_process(argv, frames, wd, k):
     """Run a tool against a terminal that queues `frames` on the connection and half-closes. argv(port) -> command line.
     Returns (exit status, stdout, stderr, frames written, note)."""
@@ -184,7 +199,7 @@ def run_process(argv, frames, wd, k):
     # what the tool writes is taken where it writes it - at the system call (strace), not at the far end of the connection: a process
     # that exits with unread data in its socket resets the connection, and what it had written last may never arrive
     st = os.path.join(wd, "strace%d.out" % k)
-    args = ["strace", "-f", "-e", "trace=connect,sendto,write,writev", "-xx", "-s", "300000", "-o", st] + argv(port)
+    args = (["strace", "-f", "-e", "trace=connect,sendto,write,writev", "-xx", "-s", "300000", "-o", st] if STRACE_OK[0] else []) + argv(port)
     try:
         p = subprocess.run(args, stdout=subprocess.PIPE, stderr=subprocess.PIPE, timeout=30)
         rc, out, err = p.returncode, p.stdout.decode("utf-8", "replace"), p.stderr.decode("utf-8", "replace")
@@ -193,9 +208,11 @@ def run_process(argv, frames, wd, k):
         note[0] = "hang"
     t.join(25)
     srv.close()
-    written = syscall_writes(st, port)
+    written = syscall_writes(st, port) if STRACE_OK[0] else None
     if written is None:
-        note[0] = note[0] or "strace-unreadable"
+        # no system call trace (tracing not permitted here, or unreadable): what arrived at the far end is the next best observation;
+        # frames the tool wrote last may be missing from it (see above) - that shows as model drift, never as a violation
+        FALLBACKS[0] += 1
         written = bytes(got)
     try:
         os.remove(st)
@@ -297,6 +314,7 @@ def run(chk, pid, thorough):
     """The tool layer as run by the check of property `pid` (C05, C06 or C11): flags of that property's family are violations, the rest
     is model drift."""
     wd = vlib.workdir(pid + "-tool")
+    chk.cov["writes_taken_at_system_call"] = bool(strace_usable())
     cases = model_cases(chk, 3 if thorough else 2)
     tool = build_tool()
     rnd = random.Random(chk.seed + 55)
@@ -313,7 +331,7 @@ def run(chk, pid, thorough):
     chk.cov["impl_traces"] = chk.cov.get("impl_traces", 0) + len(recs)
     # only what the listed property states is a violation of it; the tool's own rules (PT-*) and deviations from RunTool are model drift
     for rec, flags in flagged:
-        bad = sorted(f for f in flags if f.startswith("P11") or f.startswith("abnormal")) if pid == "C11" else []
+        bad = sorted(f for f in flags if f.startswith("P11") or (f.startswith("abnormal") and STRACE_OK[0])) if pid == "C11" else []
         if bad:
             chk.violation("tool:%s" % bad[0], "update tool over TCP: %s" % "; ".join(WHAT.get(f, f) for f in bad), brief(rec))
         else:
@@ -394,6 +412,7 @@ def run_cli_case(tool, case, wd, k):
 def run_cli(chk, pid, thorough):
     """zvt_cli over TCP as run by the check of C05 / C06: the P05 / P06 flags are violations of that property, the rest is model drift."""
     wd = vlib.workdir(pid + "-cli")
+    chk.cov["writes_taken_at_system_call"] = bool(strace_usable())
     cases = cli_model_cases(chk, 3)
     tool = os.path.join(os.path.dirname(build_tool()), "zvt_cli")
     rnd = random.Random(chk.seed + 77)
@@ -432,7 +451,8 @@ def run_cli(chk, pid, thorough):
             flags = set(json.loads(json.loads(m.group(2))))
             b = {"sub": rec["sub"], "opts": rec["opts"], "script": [cc.hexs(f["bytes"]) + (" (truncated)" if f["trunc"] else "") for f in rec["frames"]],
                  "wrote": [cc.hexs(w[:16]) for w in rec["wire"]], "exit": rec["exit"], "note": rec["note"]}
-            bad = sorted(f for f in flags if f.startswith(prefix) or f.startswith("abnormal"))
+            # (without a system call trace the last frames the tool wrote may be missing from the observation: then nothing is a violation)
+            bad = sorted(f for f in flags if f.startswith(prefix) or f.startswith("abnormal")) if STRACE_OK[0] else []
             if bad:
                 chk.violation("cli:%s:%s" % (rec["sub"], bad[0]), "zvt_cli %s over TCP: %s" % (rec["sub"], "; ".join(CLI_WHAT.get(f, f) for f in bad)), b)
             else:
